@@ -288,7 +288,15 @@ class C12(Prop):
             return None
 
         def same_r(ra, xa, rb, xb, what):
-            if ic.merge_near(xa, ra, 1e-6) != ic.merge_near(xb, rb, 1e-6):
+            # near-equal neighbours are merged on both sides; "near" is relative to the block values or to the magnitude of the
+            # observations in the blocks (a value that is exactly 0 comes out of a root finder as 1e-16 times the data)
+            if len(xa) == len(xb):
+                loc = ic.local_scales([Fraction(v) for v in xb], case["y"] if rel != "reverse" else case["y"][::-1]) if len(xb) == len(case["y"]) else None
+                if loc is not None and rel == "affine":
+                    loc = [abs(float(Fraction(case["a"]))) * v + abs(float(Fraction(case["b"]))) for v in loc]
+            else:
+                loc = None
+            if ic.merge_near(xa, ra, 1e-6, loc) != ic.merge_near(xb, rb, 1e-6, loc):
                 return f"{what}: block vectors differ: {ra} vs {rb}"
             return None
 
